@@ -18,6 +18,64 @@ def mk_offs(vals, shape, name):
     return t.to(dt)
 
 
+# ---------------------------------------------------------------- aliasing: what the caller does with ITS tensors
+# case["alias"] (implementation-only, the Coq model and the oracle get the values at call time):
+#   "obs":  every tensor handed to the record as an observation (constructor value, push, latest=, write, writerange)
+#           is overwritten in place with a sentinel right after the call returned - the record must hold its own copy;
+#   "ret":  every tensor RETURNED by a tensor-offset readrange (a gather result, never a view of the storage) is
+#           overwritten in place after it was encoded.  pop / peek / read / scalar-offset readrange return VIEWS of the
+#           storage on the unchanged code (documented aliases of the stored observation), those are left alone;
+#   "pool": tensor offsets are not fresh tensors: one tensor OBJECT per (shape, dtype) is kept for the whole case and
+#           updated in place (copy_, add_, index assignment, fill_+add_) to the values of the next use.
+def scribble(t):
+    """in-place overwrite with values no case contains"""
+    if t is None or t.numel() == 0:
+        return
+    with torch.no_grad():
+        if t.dtype == torch.bool:
+            t.logical_not_()
+        else:
+            t.fill_(-77)
+
+
+class Caller:
+    def __init__(self, case):
+        a = case.get("alias") or {}
+        self.obs, self.ret, self.pool = bool(a.get("obs")), bool(a.get("ret")), bool(a.get("pool"))
+        self.offsets = {}
+        self.uses = 0
+
+    def gave(self, t):
+        if self.obs:
+            scribble(t)
+
+    def got(self, t):
+        if self.ret:
+            scribble(t)
+
+    def offs(self, vals, shape, name):
+        new = mk_offs(vals, shape, name)
+        if not self.pool:
+            return new
+        key = (tuple(shape), name)
+        t = self.offsets.get(key)
+        if t is None or t.shape != new.shape:
+            self.offsets[key] = new
+            return new
+        self.uses += 1
+        how = self.uses % 4
+        if how == 0:
+            t.copy_(new)
+        elif how == 1:
+            t.add_(new - t)
+        elif how == 2:
+            t[...] = new
+        else:
+            t.fill_(0)
+            t.add_(new)
+        return t
+
+
 def enc(t):
     """tensor -> [dtype code, shape, flat values *2]"""
     return [DTR[t.dtype], list(t.shape), [int(round(2 * float(v))) for v in t.reshape(-1).tolist()]]
@@ -49,21 +107,36 @@ def build(case):
     else:
         value = mk(init[1], init[2], init[3])
     RecordTensor.create(owner, "rec", 1.0, float(case["N"] - 1), value, inclusive=True)
+    if (case.get("alias") or {}).get("obs"):
+        scribble(value)          # the caller reuses the tensor it constructed the record with
     return owner.rec
 
 
-def apply(rt, op):
+def apply(rt, op, who):
     k = op[0]
     if k == "push":
-        rt.push(mk(op[1], op[2], op[3]), inplace=op[4]); return [1]
+        obs = mk(op[1], op[2], op[3])
+        try:
+            if len(op) > 5 and op[5] == "latest" and not op[4]:
+                rt.latest = obs          # documented alias of push(obs, inplace=False)
+            else:
+                rt.push(obs, inplace=op[4])
+        finally:
+            who.gave(obs)
+        return [1]
     if k == "pop":
         r = rt.pop(); return [0] if r is None else [3] + enc(r)
     if k == "peek":
-        r = rt.peek(); return [0] if r is None else [3] + enc(r)
+        r = rt.latest if (len(op) > 1 and op[1] == "latest") else rt.peek(); return [0] if r is None else [3] + enc(r)
     if k == "read":
         return [3] + enc(rt.read(op[1]))
     if k == "write":
-        rt.write(mk(op[1], op[2], op[3]), offset=op[4], inplace=op[5]); return [1]
+        obs = mk(op[1], op[2], op[3])
+        try:
+            rt.write(obs, offset=op[4], inplace=op[5])
+        finally:
+            who.gave(obs)
+        return [1]
     if k == "incr":
         return [2, rt.incr(op[1])]
     if k == "decr":
@@ -77,30 +150,47 @@ def apply(rt, op):
         L = r.shape[-1]
         return [4, DTR[r.dtype], list(r.shape[:-1]), [[int(round(2 * float(x))) for x in row] for row in r.reshape(-1, L).tolist()]]
     if k == "rrt":
-        offs = mk_offs(op[2], op[3], op[5] if len(op) > 5 else "int64")
+        offs = who.offs(op[2], op[3], op[5] if len(op) > 5 else "int64")
+        keep = offs.clone()
         r = rt.readrange(op[1], offs, forward=op[4])
+        if not torch.equal(offs, keep):
+            raise AssertionError("harness: readrange changed the caller's offset tensor")
         L = r.shape[-1]
-        return [4, DTR[r.dtype], list(r.shape[:-1]), [[int(round(2 * float(x))) for x in row] for row in r.reshape(-1, L).tolist()]]
+        out = [4, DTR[r.dtype], list(r.shape[:-1]), [[int(round(2 * float(x))) for x in row] for row in r.reshape(-1, L).tolist()]]
+        who.got(r)
+        return out
     if k == "wrs":
         d, shape, cols = op[1], op[2], op[3]
         L = len(cols[0]) if cols else 0
         obs = (torch.tensor(cols, dtype=torch.float64) / 2).reshape(list(shape) + [L]).to(DT[d])
-        rt.writerange(obs, op[4], forward=op[5], inplace=op[6]); return [1]
+        try:
+            rt.writerange(obs, op[4], forward=op[5], inplace=op[6])
+        finally:
+            who.gave(obs)
+        return [1]
     if k == "wrt":
         d, shape, cols = op[1], op[2], op[3]
         L = len(cols[0]) if cols else 0
         obs = (torch.tensor(cols, dtype=torch.float64) / 2).reshape(list(shape) + [L]).to(DT[d])
-        offs = mk_offs(op[4], op[5], op[8] if len(op) > 8 else "int64")
-        rt.writerange(obs, offs, forward=op[6], inplace=op[7]); return [1]
+        offs = who.offs(op[4], op[5], op[8] if len(op) > 8 else "int64")
+        keep = offs.clone()
+        try:
+            rt.writerange(obs, offs, forward=op[6], inplace=op[7])
+        finally:
+            who.gave(obs)
+        if not torch.equal(offs, keep):
+            raise AssertionError("harness: writerange changed the caller's offset tensor")
+        return [1]
     raise AssertionError(k)
 
 
 def run_case(case):
     rt = build(case)
+    who = Caller(case)
     tr = []
     for op in case["ops"]:
         try:
-            out = [0, apply(rt, op)]
+            out = [0, apply(rt, op, who)]
         except Exception as e:  # noqa
             c = exc_code(e)
             out = [1, c] if c != 9 else [1, 9, f"{type(e).__name__}: {e}"[:200]]
